@@ -84,6 +84,24 @@ CHECKS = {
         note="table operations are atomic under per-sub-table locks, so tagged sequential op lists are the interleaving space at operation granularity; the real-thread part is stress without schedule control",
         ref="DESIGN.md 6 C15",
     ),
+    "C06": dict(
+        technique="property-based testing against exact game-theoretic oracles: retrograde tablebases (all 3-man families) and an exhaustive AND/OR mate solver; seeded scheduler for worker interleavings",
+        text="Generated-input search: tablebase mates in 1/3/5 plies (and solver-decided mates on generated sparse positions) must be reported with a winning terminal evaluation at depth n..n+2 for generated seeds, 1-32 scheduled workers; every winning terminal evaluation on a stride sample (quick) / fifth (thorough) of ALL tablebase positions, including drawn ones, must be a tablebase win with a mate-preserving first move.",
+        note="tablebases built from the rules oracle and self-checked against published maxima; outside the families the first move is proved to keep the mate or counted undecided, never refuted; schedules sampled",
+        ref="DESIGN.md 6 C06",
+    ),
+    "C17": dict(
+        technique="property-based testing on tablebase positions with generated repetition histories; expectation solved exhaustively in the game where recorded positions are draws",
+        text="Generated-input search: tablebase mates in 3/5 plies with >= 2 preserving first moves, a generated subset of the preserving successors recorded in the history (or all successors, or the root too), depth n..n+2, seeds, 1-32 scheduled workers: a mate still forced with recorded positions as draws must be reported, never through a recorded successor; all successors recorded => evaluation exactly 0.",
+        note="expectation computed by an AND/OR solve over the 3-man graph with recorded positions as terminal draws; schedules sampled",
+        ref="DESIGN.md 6 C17",
+    ),
+    "C19": dict(
+        technique="property-based metamorphic testing: run twice (same process, after unrelated searches, across processes, through the CLI) and compare the complete event transcripts",
+        text="Generated-input search: for generated sparse positions, seeds and depths the complete event sequence (lines, evaluations, depth, node counts, saturation) of two single-worker runs on a fresh memory must be identical - back to back, with an unrelated search between, across processes, through the public entry point with its default memory (depth <= 3) and through the CLI.",
+        note="fresh memory on the hook path = new small artifact with hasher seed derived from the search seed",
+        ref="DESIGN.md 6 C19",
+    ),
 }
 
 NOT_YET = {
